@@ -363,7 +363,9 @@ def run_unit(udesc, tier="quick", timeout_ms=None, known=None):
                         except Exception as e:
                             rec["replay_error"] = repr(e)
                     # known-finding classification: is there a refutation OUTSIDE every listed witness class?
-                    classes = [k for k in (known or []) if k.get("obligation") == ob.name and k.get("status") == "known"]
+                    import fnmatch
+
+                    classes = [k for k in (known or []) if fnmatch.fnmatchcase(ob.name, k.get("obligation", "")) and k.get("status") == "known"]
                     if classes:
                         env = {k: (V(v) if z3.is_expr(v) else v) for k, v in syms.items()}
                         env.update(And=lambda *a: V(z3.And(*[to_term(x) for x in a])), Or=lambda *a: V(z3.Or(*[to_term(x) for x in a])), Not=lambda a: V(z3.Not(to_term(a))))
